@@ -539,6 +539,16 @@ func (p *peer) moveReturn() bool {
 		if kind == 1 || kind == 2 {
 			q.retCaps = []capDesc{p.newCapForConn()}
 		}
+		if q.finishSeen && q.releaseRes {
+			// the Conn already finished this question with releaseResultCaps: capabilities in a late
+			// Return count as released at once
+			for _, cd := range q.retCaps {
+				if e := p.mine[cd.id]; e != nil {
+					e.refs--
+				}
+			}
+			p.r.s.Probe("return_after_finish_with_release_result_caps")
+		}
 		p.r.s.Logf("peer returns a=%d token=%d caps=%v", q.id, q.retToken, q.retCaps)
 		p.send(fmt.Sprintf("Return a=%d results token=%d caps=%v", q.id, q.retToken, q.retCaps), p.build(func(m rpccp.Message) error {
 			rt, err := m.NewReturn()
@@ -719,6 +729,7 @@ func (p *peer) process(data []byte) {
 					return err
 				}
 				rt.SetAnswerId(id)
+				rt.SetReleaseParamCaps(false) // the schema default is true
 				rt.SetCanceled()
 				return nil
 			}))
